@@ -261,31 +261,32 @@ CHECKS["C09"] = dict(
 # what later rounds added to the checks (appended to the texts above)
 EXTRA = {
     "C01": "Which announcement's difficulty / extranonce a share is judged by (\"in force when that job was announced\") is checked too: "
-           "the validator harness of C19 (every announcement with its own difficulty, the verdict names the job it used) runs under this check and is judged by Spec/C19. Pools may grant a narrower version mask than the miner asked for; the verdict of every submit of whole sessions is judged as well (the share must satisfy the mask the pool granted).",
+           "the validator harness of C19 (every announcement with its own difficulty, the verdict names the job it used) runs under this check and is judged by Spec/C19. Pools may grant a narrower version mask than the miner asked for; the verdict of every submit of whole sessions is judged as well (the share must satisfy the mask the pool granted). Job ids that need a JSON escape on the wire are announced too (the miner names the decoded id).",
     "C02": "Proof of work is real in the sessions: the fake miner mines shares (difficulties of 1..3 units of 2^-16) against what the pools announced, every submit "
-           "carries the share's difficulty against every job data it could be hashed with (measured by the harness's own SHA-256), and model and monitor decide from that table. The lifecycle harness (real TCP handler) adds histories in which the pool of a contract task fails and is re-dialled before and after the switch (after_reconnect).",
-    "C03": "Sessions run with really mined shares (see C02).",
-    "C04": "Ledger amounts are non-zero: accepted shares are really mined at fractional pool difficulties (see C02), so miner, worker-name, destination and task credit are compared in value, not only in count. Task credit is also followed across a reconnect of the task's destination (lifecycle harness, after_reconnect).",
-    "C05": "Besides single hostile lines: every sequence of up to four well-formed requests (configure / subscribe / authorize / submit, a subscribe answered late) in arbitrary protocol order, next to a well-behaved connection. The random sessions of well-formed events (C02-C04) are run under this check for crashes; a crash replay names the op being executed.",
-    "C06": "What virtual time cannot exhibit runs against the wall clock: a destination change still in its handshake when the reconnect wait of a failed pool ends (four timings in parallel, judged by monitorRT; a complaint counts only if it repeats).",
+           "carries the share's difficulty against every job data it could be hashed with (measured by the harness's own SHA-256), and model and monitor decide from that table. The lifecycle harness (real TCP handler) adds histories in which the pool of a contract task fails and is re-dialled before and after the switch (after_reconnect). The job-memory harness of C19 (announcements, time, submits — among them the same share spelled with capital hex digits) runs here as well and is judged by Spec/C19: accepted exactly when the job is known, unexpired and the share is not a repeat.",
+    "C03": "Sessions run with really mined shares (see C02). Regenerated on every run: when setDest skips a change as \"the same destination\" (the whole url) and the order in which it stops the readers, re-sends to the miner and starts the relay (source_setDest_shape, resend_happens_with_readers_stopped). The connection read cases with a cancellation at the instant bytes arrive run here too (a pool message must not be consumed and dropped while a reader is being stopped).",
+    "C04": "Ledger amounts are non-zero: accepted shares are really mined at fractional pool difficulties (see C02), so miner, worker-name, destination and task credit are compared in value, not only in count. Task credit is also followed across a reconnect of the task's destination (lifecycle harness, after_reconnect). The task's side of the credit is followed in the scheduler as well (C07's harness with slow destination changes and destination errors runs here: credits, what a task had left when it ended, crashes).",
+    "C05": "Besides single hostile lines: every sequence of up to four well-formed requests (configure / subscribe / authorize / submit, a subscribe answered late) in arbitrary protocol order, next to a well-behaved connection. The random sessions of well-formed events (C02-C04) are run under this check for crashes; a crash replay names the op being executed. Whole lifecycles through the real TCP handler (contract tasks, pool failures, failed reconnects, the relay started again, shares afterwards) run here for crashes; a line that announces a job is followed by a share with version bits for that job; shares from a mining miner and announcements from the active pool are never thinned out.",
+    "C06": "What virtual time cannot exhibit runs against the wall clock: a destination change still in its handshake when the reconnect wait of a failed pool ends (four timings in parallel, judged by monitorRT; a complaint counts only if it repeats). Regenerated on every run: Proxy.Run stops the left-over pipe and builds a fresh one on every start, and the session reconnects to its own copy of the configured destination (source_run_renews_its_pipe, source_session_owns_its_destination).",
     "C07": "A second, finer model (Model/SchedSlow.lean: the goroutine's position explicit, newTaskSignal as a one-token channel) covers destination changes that take time: add / remove / share / time arrive "
            "while the scheduler is inside SetDest. Theorems for every history of events and releases: every reachable state is well-formed, a SetDest is entered only for a live queued task, a removed contract is never "
-           "pointed at again (also when the removal arrives mid-change), the proxy's answer installs the destination and callback that were asked for. The real Scheduler runs over a proxy whose SetDest blocks until released and is compared op by op.",
+           "pointed at again (also when the removal arrives mid-change), the proxy's answer installs the destination and callback that were asked for. The real Scheduler runs over a proxy whose SetDest blocks until released and is compared op by op. A crash of the scheduler (or of a callback it handed to the proxy) is a violation with the history as replay; regenerated: the disconnecting flag is raised first, tasks or not.",
     "C08": "Terms updates (purchaseInfoUpdated; new terms of a running contract wait for its close), events without a handler and node failures (a refused eth_call under every event) are ops of model, driver and harness; "
-           "history-level theorems (history_inv, history_allocates_only_live over every event list, restart point and chain answer), repurchase_under_new_terms, terms_update_while_running, rpc_failure_is_harmless; the monitor also requires the speed and length of the purchase.",
+           "history-level theorems (history_inv, history_allocates_only_live over every event list, restart point and chain answer), repurchase_under_new_terms, terms_update_while_running, rpc_failure_is_harmless; the monitor also requires the speed and length of the purchase. The stopping watcher against a handler that waited for it is modelled as two threads over the regenerated statement order (restart_after_done_is_clean for every interleaving). Purchases whose block time stamp runs ahead of the node's clock; which contracts are engaged at all (the contract-manager histories with delisted contracts, restarts and refused calls run here too).",
     "C09": "The monitor also requires that the watcher's account lists every connected miner that is directed to the contract's destination (otherwise it can neither be shed nor released); a seam pauses the scheduler inside the end notification of partial jobs, "
-           "and a generator makes the whole miner leave so that the watcher wants whole miners at the instant a partial job ends. Late fleets (the contract is bought with too little hashrate, large miners join later): what earlier cycles fell short must be made up within 4 + 2 lag/(spare x cycle) cycles. Two known findings (the +-1000 GH/s dead band of adjustHashrate on contracts smaller than the band) run as corpus histories with model witnesses small_miners_starve_then_flood and whole_miners_overstay.",
-    "C13": "Tasks are told of the disconnect only once the miner no longer counts as connected (probe inside the notification). Pools that fail by sending a non-stratum line and keeping the socket open, and peers that are no stratum miners at all (hang up, HTTP, TLS hello), are ops of the lifecycle histories.",
-    "C16": "The assumption that a buyer / validator controller returns once its purchase ended is checked against the real ControllerBuyer (C10's harness runs under this check). Node failures are ops: a refused call during the start-up scan or in a clone-factory event handler must end the manager (so that its supervisor restarts it) and every controller must return.",
-    "C17": "Several miners, one after the other, through one real TCP handler (one configured destination): the name and password the pool is presented with vs Model/Cred on the configured destination.",
-    "C18": "Bad payloads go through the real seller controller (C08's world) and are compared with the fail-closed model; every GET route of the real HTTP engine (built around a configuration loaded from flags / environment with marker secrets) is requested and searched for the markers.",
+           "and a generator makes the whole miner leave so that the watcher wants whole miners at the instant a partial job ends. Late fleets (the contract is bought with too little hashrate, large miners join later): what earlier cycles fell short must be made up within 4 + 2 lag/(spare x cycle) cycles. Two known findings (the +-1000 GH/s dead band of adjustHashrate on contracts smaller than the band) run as corpus histories with model witnesses small_miners_starve_then_flood and whole_miners_overstay. The partial miners' cut-off is regenerated and modelled (cutoff_makes_up, plain_cutoff_never_makes_up); the seller world's destination-change histories run here too (work must reach the contract's current destination); regenerated: the miner-disconnect channel's Send has no default arm.",
+    "C13": "Tasks are told of the disconnect only once the miner no longer counts as connected (probe inside the notification). Pools that fail by sending a non-stratum line and keeping the socket open, and peers that are no stratum miners at all (hang up, HTTP, TLS hello), are ops of the lifecycle histories. Regenerated: the scheduler's deferred clean-up is a closure that stops the relay task it started.",
+    "C16": "The assumption that a buyer / validator controller returns once its purchase ended is checked against the real ControllerBuyer (C10's harness runs under this check). Node failures are ops: a refused call during the start-up scan or in a clone-factory event handler must end the manager (so that its supervisor restarts it) and every controller must return. How Run ends is regenerated and modelled (run_returns_on_every_exit over the regenerated call list). The buyer / validator side end to end (real factory and controllers): a purchase with this node as buyer or validator is watched whatever its destination decrypts to and whether or not the first subscription is refused.",
+    "C17": "Several miners, one after the other, through one real TCP handler (one configured destination): the name and password the pool is presented with vs Model/Cred on the configured destination. The name presented on a pool connection that replaces a failed one (lifecycle reconnect histories).",
+    "C18": "Bad payloads go through the real seller controller (C08's world) and are compared with the fail-closed model; every GET route of the real HTTP engine (built around a configuration loaded from flags / environment with marker secrets) is requested and searched for the markers. The buyer world's fail-closed clause (a destination that cannot be read, decrypted or parsed raises an error and is never silently the default pool); what the node prints when its configuration is refused (every configured value in seven malformed shapes, env and flags) is searched for the secrets.",
     "C10": "The same contract bought again in the same process (a late share of the ended purchase, a pause longer than the share timeout): a share-timeout verdict needs a silence longer than the timeout within that purchase. "
-           "The default start-up grace period is checked through the real configuration defaults for a grid of configured cycles.",
-    "C11": "The vetting threshold the eligibility test relies on is followed through the real TCP handler (MINER_VETTING_SHARES different from the cache size); the remainder clause also under disconnects in the middle of a call.",
-    "C12": "The read path of a stratum connection is included: a cancellation placed between the start of a Read and the clearing of its deadline (hooked connection) returns the cancellation and takes nothing.",
-    "C14": "Read streams contain answers as well (result lines built by the package's constructors, among them result null with an error); a cancellation is also placed inside SetReadDeadline (readx).",
-    "C15": "Several connections through one real TCP handler: the account the pool is asked to authorise for a connection is Model/Cred's for the configured destination and that connection's miner name, whatever earlier connections did.",
-    "C20": "The mean a running seller contract reports is compared with the work that reached its destination over the time since it started delivering (delivery harness, est lines).",
+           "The default start-up grace period is checked through the real configuration defaults for a grid of configured cycles. The share record (GlobalHashrate) is modelled (Model/WorkerBook.lean), compared op by op with the real one, and the watcher's Reset-then-Initialize is regenerated: fresh_purchase_starts_clean, purchase_reference. Regenerated: the default of the start-up grace period; what the destination-failure signal leads to.",
+    "C11": "The vetting threshold the eligibility test relies on is followed through the real TCP handler (MINER_VETTING_SHARES different from the cache size); the remainder clause also under disconnects in the middle of a call. A miner's measured rate moving between the allocator's snapshot and the hand-out (fullr): the work handed out is no more than the request amounts to. Regenerated wiring of the vetting threshold.",
+    "C12": "The read path of a stratum connection is included: a cancellation placed between the start of a Read and the clearing of its deadline (hooked connection) returns the cancellation and takes nothing. The same clauses where the tasks are used: each direction of a Pipe stopped in Read / in Write / inside its interceptor and started again, the handshake's pipeSync ended by a failing handler, a Stop and its parent with a message queued; the schedule monitor also requires completion to be signalled when the function returns on its own (also with an inner operation's context error).",
+    "C14": "Read streams contain answers as well (result lines built by the package's constructors, among them result null with an error); a cancellation is also placed inside SetReadDeadline (readx). A cancellation at the instant bytes arrive (hooked Read, sendc; Model.Conn.readCancelled): a completed line is still handed out, otherwise nothing is taken.",
+    "C15": "Several connections through one real TCP handler: the account the pool is asked to authorise for a connection is Model/Cred's for the configured destination and that connection's miner name, whatever earlier connections did. Regenerated: each handshake handler registers the answer's callback before it writes the request (answer_finds_its_handler for every interleaving); the per-connection copy of the configured destination. Contract routing from the source of the pool destination: the buyer world (real ContractManager, ContractFactory, ControllerBuyer, store; every role x destination kind x path x fault).",
+    "C20": "The mean a running seller contract reports is compared with the work that reached its destination over the time since it started delivering (delivery harness, est lines). The worker record (GlobalHashrate) under several connections of one name against Model/WorkerBook.lean; regenerated: the seller converts the missing rate to work and back over one span.",
+    "C19": "The same share spelled with capital hex digits; job ids that need a JSON escape; the connection read cases (an announcement consumed by a Read that was being stopped never reaches the job memory).",
 }
 for _pid, _add in EXTRA.items():
     CHECKS[_pid]["text"] += " " + _add
